@@ -254,7 +254,7 @@ theorem createAttribute_good (dense : Bool) (nm : String) (ty : Ty) (k : Nat) (d
   | false =>
     simp only [Bool.false_eq_true, if_false, sparseInit, checkDefaultValueType]
     cases dv with
-    | none => simp [hset, AttrSrc.Good, ClsOk, hk]
+    | none => simp [hset, AttrSrc.Good, ClsOk, hk, attrSet]
     | some x =>
       by_cases hx : x.ty = ty
       · simp [hset, AttrSrc.Good, ClsOk, hk, pyTypeO, attrType, hx]
@@ -359,6 +359,122 @@ theorem step_grow (dense : Bool) (nm : String) (h : Heap) (c : Cont) (hg : Good 
         simp only [Other.isA, Bool.or_self, Bool.false_eq_true, if_false, Other.isCont, if_true, Other.dataOf, h1]; exact e1
       simp only [srcStep, this, contObs, step]
       exact ⟨by simpa [toState] using e3, trivial, e2⟩
+
+/-- the result of `register_array_as_attribute` on a well-shaped array -/
+def RegOk (nm : String) (a : ArrIn) (dv : Option Scalar) (h : Heap) (c : Cont) (k : Nat) (slf : Self) (h' : Heap) (c' : Cont) : Prop :=
+  c'.attr = [(nm, slf)] ∧ c'.data = c.data ∧
+  slf.cls = .dense ∧ slf.type = a.ty ∧ slf.elemsize = k ∧ slf.nElem = c.data.length ∧ slf.dv = dv ∧
+  (∃ r, slf.data = .array r ∧
+    cellMat h' r = (if a.exact then a.rows h else (a.rows h).map (fun row => row.map (castTo a.ty)))) ∧
+  (∀ q, q < h.length → h'[q]? = h[q]?) ∧ Good true nm c'
+
+theorem registerArray_spec2 (w : Bool) (nm : String) (a : ArrIn) (dv : Option Scalar) (h : Heap) (c : Cont)
+    (hc : c.attr = [] ∨ ∃ a0, c.attr = [(nm, a0)]) (h2 : a.ndim = 2) (hk : 1 ≤ a.k)
+    (hrows : (a.rows h).length = c.data.length) (href : a.ref < h.length) (hdv : ∀ x, dv = some x → x.ty = a.ty) :
+    ∃ slf h' c', registerArray w nm a dv h c = .ok (slf, h', c') ∧ RegOk nm a dv h c a.k slf h' c' := by
+  have hset : ∀ a', attrSet c.attr nm a' = [(nm, a')] := by
+    intro a'
+    rcases hc with h0 | ⟨a0, h1⟩
+    · simp [h0, attrSet]
+    · simp [h1, attrSet]
+  have hchk : ∀ (k n : Nat), checkDefaultValueType h { cls := .dense, type := a.ty, elemsize := k, dv := dv, nElem := n } =
+      .ok ((), h, { cls := .dense, type := a.ty, elemsize := k, dv := dv, nElem := n }) := by
+    intro k n
+    unfold checkDefaultValueType
+    cases hd : dv with
+    | none => simp
+    | some x => simp [pyTypeO, attrType, hdv x hd]
+  have hfr : ∀ (cell : Cell) q, q < h.length → (h ++ [cell])[q]? = h[q]? := fun cell q hq => List.getElem?_append_left hq
+  have hfr2 : ∀ (c1 c2 : Cell) q, q < h.length → ((h ++ [c1]) ++ [c2])[q]? = h[q]? := by
+    intro c1 c2 q hq
+    rw [List.getElem?_append_left (by simp; omega), List.getElem?_append_left hq]
+  have hcm1 : ∀ (c1 : Cell), cellMat (h ++ [c1]) a.ref = cellMat h a.ref := by
+    intro c1; unfold cellMat; rw [hfr c1 a.ref href]
+  have hcm2 : ∀ (c1 : Cell) (m : List Val), cellMat (h ++ [c1, Cell.mat m]) (h.length + 1) = m := by
+    intro c1 m
+    have : h ++ [c1, Cell.mat m] = (h ++ [c1]) ++ [Cell.mat m] := by simp
+    rw [this]
+    have hl : (h ++ [c1]).length = h.length + 1 := by simp
+    rw [← hl]; exact cellMat_new _ _
+  have hfr2' : ∀ (c1 c2 : Cell) q, q < h.length → (h ++ [c1, c2])[q]? = h[q]? := fun c1 c2 q hq => List.getElem?_append_left hq
+  have hne : ¬ a.ndim = 1 := by omega
+  have hs1 : a.shape1? = some a.k := by simp [ArrIn.shape1?, h2]
+  have hs0 : a.shape0 h = c.data.length := by simpa [ArrIn.shape0] using hrows
+  unfold RegOk
+  by_cases hex : a.exact = true
+  ·
+    cases hr : registerArray w nm a dv h c with
+    | error e =>
+      unfold registerArray at hr
+      simp [hne, decide_false, Bool.false_eq_true, if_false, hs1, hs0, contLen, Bool.not_true, ite_self, denseInit, hchk, allocMat, hset, attrGet, List.lookup, beq_self_eq_true, Option.getD_some, astypeNoCopy, decide_true, if_true, hex] at hr
+    | ok p =>
+      obtain ⟨slf, h', c'⟩ := p
+      unfold registerArray at hr
+      simp only [hne, decide_false, Bool.false_eq_true, if_false, hs1, hs0, contLen, Bool.not_true, ite_self, denseInit, hchk, allocMat, hset, attrGet, List.lookup, beq_self_eq_true, Option.getD_some, astypeNoCopy, decide_true, if_true, hex, Bool.true_and, Except.ok.injEq, Prod.mk.injEq] at hr
+      obtain ⟨e1, e2, e3⟩ := hr
+      subst e1 e2 e3
+      refine ⟨_, _, _, rfl, ?_⟩
+      simp [hex, Data.asRef, ArrIn.rows, hcm1, hfr, AttrSrc.Good, ClsOk, hk, attrSet]
+      exact fun q hq => hfr _ q hq
+  · have hex' : a.exact = false := by simpa using hex
+    cases hr : registerArray w nm a dv h c with
+    | error e =>
+      unfold registerArray at hr
+      simp [hne, decide_false, Bool.false_eq_true, if_false, hs1, hs0, contLen, Bool.not_true, ite_self, denseInit, hchk, allocMat, hset, attrGet, List.lookup, beq_self_eq_true, Option.getD_some, astypeNoCopy, decide_true, if_true, hex'] at hr
+    | ok p =>
+      obtain ⟨slf, h', c'⟩ := p
+      unfold registerArray at hr
+      simp only [hne, decide_false, Bool.false_eq_true, if_false, hs1, hs0, contLen, Bool.not_true, ite_self, denseInit, hchk, allocMat, hset, attrGet, List.lookup, beq_self_eq_true, Option.getD_some, astypeNoCopy, decide_true, if_true, hex', Bool.false_and, Except.ok.injEq, Prod.mk.injEq] at hr
+      obtain ⟨e1, e2, e3⟩ := hr
+      subst e1 e2 e3
+      refine ⟨_, _, _, rfl, ?_⟩
+      simp [hex', Data.asRef, ArrIn.rows, hcm1, hfr2, AttrSrc.Good, ClsOk, cellMat_new, hk, attrSet]
+      exact ⟨hcm2 _ _, fun q hq => hfr2' _ _ q hq⟩
+
+/-- a 1-D array is registered as the same object seen with one more axis of length 1 -/
+theorem registerArray_newaxis (w : Bool) (nm : String) (a : ArrIn) (dv : Option Scalar) (h : Heap) (c : Cont) (h1 : a.ndim = 1) :
+    registerArray w nm a dv h c = registerArray w nm a.newaxis dv h c := by
+  have hn : ¬ a.newaxis.ndim = 1 := by simp [ArrIn.newaxis, h1]
+  unfold registerArray
+  simp only [h1, hn, decide_true, decide_false, if_true, Bool.false_eq_true, if_false]
+
+/-- `register_array_as_attribute` as written (repaired), on a well-shaped array `(n,)` or `(n,k)` with `n = len(container)` and a default
+of the array's type (or none): whatever the duplicate-warning switch and whether or not the name exists, the name is bound to a
+FRESH dense attribute object of the array's type and arity, whose storage holds exactly the rows of the array — the caller's
+object itself when its dtype already is the attribute's (`exact`), a converted copy otherwise —, no other heap cell changes, and
+the container is again one the step bridge applies to (scripts can go on from it) -/
+theorem registerArray_spec (w : Bool) (nm : String) (a : ArrIn) (dv : Option Scalar) (h : Heap) (c : Cont)
+    (hc : c.attr = [] ∨ ∃ a0, c.attr = [(nm, a0)]) (hnd : a.ndim = 1 ∨ a.ndim = 2) (hk : 1 ≤ a.k)
+    (hrows : (a.rows h).length = c.data.length) (href : a.ref < h.length) (hdv : ∀ x, dv = some x → x.ty = a.ty) :
+    ∃ slf h' c', registerArray w nm a dv h c = .ok (slf, h', c') ∧
+      RegOk nm a dv h c (if a.ndim = 1 then 1 else a.k) slf h' c' := by
+  rcases hnd with h1 | h2
+  · rw [registerArray_newaxis w nm a dv h c h1]
+    have := registerArray_spec2 w nm a.newaxis dv h c hc (by simp [ArrIn.newaxis, h1]) (by simp [ArrIn.newaxis]) hrows href hdv
+    simpa [h1, RegOk, ArrIn.newaxis, ArrIn.rows] using this
+  · have hne : ¬ a.ndim = 1 := by omega
+    simpa [hne] using registerArray_spec2 w nm a dv h c hc h2 hk hrows href hdv
+
+/-- a mis-shaped array (row count ≠ container size) is refused before anything is bound -/
+theorem registerArray_bad_shape (w : Bool) (nm : String) (a : ArrIn) (dv : Option Scalar) (h : Heap) (c : Cont)
+    (hrows : (a.rows h).length ≠ c.data.length) : registerArray w nm a dv h c = .error .size := by
+  have h0 : ¬ a.shape0 h = c.data.length := by simpa [ArrIn.shape0] using hrows
+  have h0' : ¬ a.newaxis.shape0 h = c.data.length := by simpa [ArrIn.shape0, ArrIn.newaxis, ArrIn.rows] using hrows
+  unfold registerArray
+  by_cases h1 : a.ndim = 1
+  · have hs : a.newaxis.shape1? = some 1 := by simp [ArrIn.shape1?, ArrIn.newaxis, h1]
+    simp [h1, hs, h0', contLen]
+  · cases hs : a.shape1? <;> simp [h1, hs, h0, contLen]
+
+/-- non-vacuity: a uint8-like (not `exact`) (2,) array registered on a 2-element container that already has an attribute "a": the new
+attribute is dense Int of arity 1, its storage a NEW cell holding the rows, and the caller's cell is untouched -/
+example :
+    let h : Heap := [.mat [[.i 9], [.i 0]]]
+    let c : Cont := { data := [0, 1], attr := [("a", { cls := .sparse, type := .str, elemsize := 2, data := .dict [] })] }
+    (match registerArray false "a" { ref := 0, ty := .int, exact := false, ndim := 1, k := 0 } none h c with
+     | .ok (slf, h', c') => (slf.cls, slf.type, slf.elemsize, slf.nElem, cellMat h' slf.data.asRef, cellMat h' 0, c'.attr.length)
+     | .error _ => (.sparse, .bool, 0, 0, [], [], 0)) = (.dense, .int, 1, 2, [[.i 9], [.i 0]], [[.i 9], [.i 0]], 1) := by
+  rfl
 
 /-- **the step bridge**: one operation executed by the translated code = one step of the hand model, seen through `toState`:
 same state, same observation, and the reached container is again one the bridge applies to -/
